@@ -14,6 +14,39 @@ C->S : seeded random arrays (shape 1..6 per axis, 1-2 channels, five dtypes,
        values at the type limits, four outside values); every call of the
        real downscaler is judged by Trace_Downscale: oracle:Raised, OutShape,
        DType, InRange, BlockMean / Majority / Stride.
+       Downscalers are obtained through get_downscaler: by the explicit method
+       name, and through the "auto" selection path of the command-line tools
+       (get_downscaler("auto", info, options) with info type image ->
+       averaging with the configured outside value, segmentation -> striding;
+       the documented selection rule is applied by TLC, Eff in
+       Trace_Downscale).  A quarter of the random averaging / striding calls
+       and a directed block (every dtype x every outside value x odd shapes)
+       go through "auto".
+       Directed type-limit block: uint64 (and the other integer types) constant
+       at the type maximum, maximum next to maximum - 1 ... maximum - 1024,
+       with and without the type maximum as outside value, odd shapes.
+       Directed out-of-type outside values (-3, -1, max + 1, max + 745,
+       2 max + 1 for each integer type) on odd shapes.
+
+Interpretation of "all outside-value settings": an outside value that is a
+value of the array's data type is fully judged.  For an outside value OUTSIDE
+the range of an integer data type the exact mean of a border block may not be
+representable in the unchanged data type (the statement's clauses contradict
+each other there), so the weaker reading is adopted: an exception is accepted,
+oracle:BlockMean is not demanded, and only oracle:OutShape / DType / InRange
+("never overflow or wrap, between the minimum and maximum of the contributing
+values", the outside value being a contributor) are evaluated - by TLC
+(OvInType in Trace_Downscale).  Non-integer outside values for integer data
+are not generated.
+
+Known-finding matching: for a failing InRange / BlockMean clause of the
+averaging method on integer data TLC also reports a class of the deviation
+(DevClass in Trace_Downscale): "near" = every wrong element is within 1 or
+within max|contributor| * 2^-51 of the exact mean (float64 rounding of a few
+ULPs), "gross" otherwise (wrap-around, overflow).  It travels in the `sig` as
+`deviation` and is used only by known_findings.json (the recorded uint64 /
+float64 limitation suppresses the "near" class only); the verdict itself does
+not depend on it.
 """
 import hashlib
 import json
@@ -24,9 +57,11 @@ from .. import downscale_driver as dd
 from .. import tlc
 
 LEVEL = "model_checking"
-RULE = ("one call of a real downscaler = (method, factors, outside value, dtype, array); non-trivial when "
+RULE = ("one call of a real downscaler obtained through get_downscaler = (method name or 'auto' + info type, "
+        "factors, outside value, dtype, array); non-trivial when "
         "some block holds two different values (so that rounding / tie / first-voxel choices are visible) "
-        "or overhangs the border; distinct = distinct (method, factors, outside, dtype, shape, content)")
+        "or overhangs the border; distinct = distinct (method / selection path, factors, outside, dtype, shape, "
+        "content)")
 
 
 def magnitude_class(arr, outside):
@@ -40,8 +75,8 @@ def magnitude_class(arr, outside):
     return "le2^24" if m <= 2 ** 24 else "le2^50" if m <= 2 ** 50 else "gt2^50"
 
 
-def add_call(ctx, calls, origin, method, factors, outside, arr):
-    case, rec = dd.run_case(method, factors, outside, arr)
+def add_call(ctx, calls, origin, method, factors, outside, arr, itype="image"):
+    case, rec = dd.run_case(method, factors, outside, arr, itype)
     rec["origin"] = origin
     rec["arr"] = arr
     calls.append((case, rec))
@@ -85,19 +120,94 @@ def random_calls(ctx, calls):
             outs = dd.outside_values(dtype)
             if arr.dtype.kind == "f" and float(abs(arr).max()) > 2.0 ** 100:
                 outs = [None, 0.0]      # (a small outside value next to 2^127 has no exact float32 mean)
-            add_call(ctx, calls, "random", "average", rng.choice(dd.AVG_FACTORS),
-                     rng.choice(outs), arr)
+            # a quarter through the "auto" selection path (info type image)
+            add_call(ctx, calls, "random", "auto" if rng.random() < 0.25 else "average",
+                     rng.choice(dd.AVG_FACTORS), rng.choice(outs), arr, "image")
         elif r < 0.8:
             if arr.size > 64:        # the majority downscaler is a slow Python loop
                 arr = arr[:, :4, :4, :4]
             add_call(ctx, calls, "random", "majority", rng.choice(dd.ANY_FACTORS), None, arr)
+        elif rng.random() < 0.25:
+            # "auto" on a segmentation selects striding (an outside value is irrelevant there)
+            add_call(ctx, calls, "random", "auto", rng.choice(dd.ANY_FACTORS),
+                     rng.choice([None, 7]), arr, "segmentation")
         else:
             add_call(ctx, calls, "random", "stride", rng.choice(dd.ANY_FACTORS), None, arr)
 
 
-def sig_of(case, rec, clause):
+ODD_SHAPES = [[1, 3, 5, 3], [1, 1, 4, 7], [2, 1, 1, 5], [1, 2, 3, 1], [1, 5, 1, 2]]
+
+
+def directed_calls(ctx, calls):
+    """Directed blocks (independent of the seed's luck): the "auto" selection
+    path with every outside value on odd shapes; the top of every integer
+    type's range; outside values that are not values of the type."""
+    rng = ctx.rng
+    # (1) "auto" + options
+    for dtype in dd.NG_DTYPES:
+        for outside in dd.outside_values(dtype):
+            for shape in rng.sample(ODD_SHAPES, ctx.pick(2, 5)):
+                arr = dd.random_array(rng, dtype, shape)
+                if arr.dtype.kind == "f" and float(abs(arr).max()) > 2.0 ** 100 and outside not in (None, 0.0):
+                    continue
+                odd = [f for f in dd.AVG_FACTORS
+                       if any(f[a] == 2 and shape[3 - a] % 2 for a in range(3))]
+                add_call(ctx, calls, "directed-auto", "auto", rng.choice(odd), outside, arr, "image")
+        add_call(ctx, calls, "directed-auto", "auto", rng.choice(dd.ANY_FACTORS), None,
+                 dd.random_array(rng, dtype, rng.choice(ODD_SHAPES)), "segmentation")
+    # (2) the top of the integer ranges
+    for dtype in dd.NG_DTYPES[:4]:
+        mx = dd.type_max(dtype)
+        span = min(1024, mx)
+        pools = [[mx], [mx, mx - 1], [mx, mx - 2, mx - 1], [mx - 1, mx - 3],
+                 [mx, mx - rng.randint(2, span)], [mx - rng.randint(1, span), mx - rng.randint(1, span)]]
+        shapes = [[1, 2, 2, 2], [1, 3, 1, 5], [1, 1, 2, 3]]
+        for pool in pools:
+            for shape in rng.sample(shapes, ctx.pick(1, 3)):
+                n = shape[0] * shape[1] * shape[2] * shape[3]
+                arr = np.array([pool[k % len(pool)] for k in range(n)], dtype=dtype).reshape(shape)
+                for f in rng.sample(dd.AVG_FACTORS[1:], ctx.pick(2, 7)):
+                    add_call(ctx, calls, "directed-limit", "average", f, rng.choice([None, mx, None]), arr)
+    # (3) outside values outside the type's range (weaker reading, see the header)
+    for dtype in dd.NG_DTYPES[:4]:
+        for outside in dd.outside_values_out_of_type(dtype):
+            for shape in rng.sample(ODD_SHAPES, ctx.pick(1, 3)):
+                arr = dd.random_array(rng, dtype, shape)
+                odd = [f for f in dd.AVG_FACTORS
+                       if any(f[a] == 2 and shape[3 - a] % 2 for a in range(3))]
+                add_call(ctx, calls, "directed-ov-out-of-type", rng.choice(["average", "auto"]),
+                         rng.choice(odd), outside, arr, "image")
+            # the same at the top of the type's range
+            mx = dd.type_max(dtype)
+            shape = rng.choice(ODD_SHAPES)
+            n = shape[0] * shape[1] * shape[2] * shape[3]
+            top = [mx, mx - 3, mx - 1, mx - 3]
+            arr = np.array([top[k % 4] for k in range(n)], dtype=dtype).reshape(shape)
+            odd = [f for f in dd.AVG_FACTORS if any(f[a] == 2 and shape[3 - a] % 2 for a in range(3))]
+            add_call(ctx, calls, "directed-ov-out-of-type", "average", rng.choice(odd), outside, arr, "image")
+
+
+EFFECTIVE = {("auto", "image"): "average", ("auto", "segmentation"): "stride"}
+
+
+def effective(case):
+    """the method a case is about, for SIG / COVERAGE fields only (the verdict
+    uses TLC's own Eff)"""
+    return EFFECTIVE.get((case["method"], case["itype"]), case["method"])
+
+
+def split_pos(pos):
+    """pos printed by TLC: first bad element, or [first bad element, deviation class]"""
+    if isinstance(pos, list):
+        return pos[0], pos[1]
+    return pos, "n/a"
+
+
+def sig_of(case, rec, clause, deviation="n/a"):
     arr = rec["arr"]
-    return {"method": case["method"], "dtype": case["dtype"], "factors": case["f"],
+    return {"method": effective(case), "via": "auto" if case["method"] == "auto" else "direct",
+            "deviation": deviation,
+            "dtype": case["dtype"], "factors": case["f"],
             "outside": "none" if rec["outside"] is None else
             ("type_max" if rec["outside"] == dd.type_max(case["dtype"]) else str(rec["outside"])),
             "magnitude": magnitude_class(arr, rec["outside"]),
@@ -107,8 +217,8 @@ def sig_of(case, rec, clause):
 def detail_of(case, rec, pos):
     arr = rec["arr"]
     out = rec["out"]
-    return {"method": case["method"], "factors": case["f"], "outside": rec["outside"],
-            "dtype": case["dtype"], "shape": case["shape"],
+    return {"method": case["method"], "itype": case["itype"], "factors": case["f"],
+            "outside": rec["outside"], "dtype": case["dtype"], "shape": case["shape"],
             "data": [str(x) for x in arr.ravel().tolist()],
             "observed": None if out is None else [str(x) for x in np.asarray(out).ravel().tolist()],
             "observed_shape": case["oshape"], "first_bad_element": pos, "exc": case["exc"],
@@ -130,6 +240,9 @@ def run(ctx):
         "given in the array's value domain (Python int for integer types)",
         "float32 data are dyadic values whose block means are exactly representable (exact oracle, no "
         "tolerance); float32 outside values are 0, 7, -2.5",
+        "an outside value outside the range of an integer data type is judged by the shape / dtype / range "
+        "clauses only and may be refused with an exception (weaker reading, module header)",
+        "'auto' selects averaging for info type image and striding otherwise (documented rule, applied by TLC)",
         "TLC 1.8 evaluates the oracle faithfully; harness/downscale_driver.py only re-encodes values as "
         "exact scaled integers",
     ]
@@ -143,22 +256,27 @@ def run(ctx):
     ctx.notes["scope_calls"] = len(calls)
     random_calls(ctx, calls)
     ctx.notes["random_calls"] = len(calls) - ctx.notes["scope_calls"]
+    n0 = len(calls)
+    directed_calls(ctx, calls)
+    ctx.notes["directed_calls"] = len(calls) - n0
+    ctx.notes["calls_via_auto"] = sum(1 for c, _ in calls if c["method"] == "auto")
     verdicts = judge_calls(ctx, calls)
     changed = 0
     for case, rec in calls:
         st, clause, pos = verdicts[case["tid"]]
+        pos, deviation = split_pos(pos)
         if clause.startswith("machinery:"):
             raise tlc.MachineryError("%s on %s" % (clause, json.dumps(detail_of(case, rec, pos))[:600]))
         ctx.count()
-        mixed, overhang = dd.block_class(rec, rec["arr"], case["method"], case["f"])
+        mixed, overhang = dd.block_class(rec, rec["arr"], effective(case), case["f"])
         if mixed or overhang:
-            ctx.nontrivial((case["method"], tuple(case["f"]), str(rec["outside"]), case["dtype"],
+            ctx.nontrivial((case["method"], case["itype"], tuple(case["f"]), str(rec["outside"]), case["dtype"],
                             tuple(case["shape"]), hashlib.sha1(rec["arr"].tobytes()).hexdigest()))
         if not rec["input_unchanged"]:
             changed += 1
         if st != "ok":
-            ctx.violation(clause, sig_of(case, rec, clause), detail_of(case, rec, pos))
-        elif mixed and overhang and case["method"] == "average":
+            ctx.violation(clause, sig_of(case, rec, clause, deviation), detail_of(case, rec, pos))
+        elif mixed and overhang and effective(case) == "average":
             ctx.sample({"method": case["method"], "factors": case["f"], "outside": rec["outside"],
                         "dtype": case["dtype"], "shape": case["shape"],
                         "data": [str(x) for x in rec["arr"].ravel().tolist()][:32],
@@ -177,10 +295,12 @@ def replay(ctx, path):
     else:
         arr = np.array([int(x) for x in d["data"]], dtype=dt).reshape(d["shape"])
     calls = []
-    add_call(ctx, calls, "replay", d["method"], tuple(d["factors"]), d["outside"], arr)
+    add_call(ctx, calls, "replay", d["method"], tuple(d["factors"]), d["outside"], arr,
+             d.get("itype", "image"))
     v = judge_calls(ctx, calls)
     case, rec = calls[0]
-    print("replay: observed", detail_of(case, rec, v[1][2])["observed"], "->", v[1][1], "element", v[1][2])
+    print("replay: observed", detail_of(case, rec, split_pos(v[1][2])[0])["observed"], "->", v[1][1],
+          "element", v[1][2])
     print("replay verdict:", v[1][1])
     ctx.cleanup()
     return 0 if v[1][0] == "ok" else 1
